@@ -94,11 +94,14 @@ class C09(P.Property):
             if rng.random() < 0.04:
                 kw = (kw + "L" * 40)[:32 - len(str(i))] + str(i)  # at the 32-byte keyword limit of SSE-1 / SSE-2 (ASCII part)
                 kw = kw.encode("utf-8")[:32].decode("utf-8", "ignore")
+            kwmax = 32 if scheme in ("CGKO06.SSE1", "CGKO06.SSE2") else 160  # only SSE-1 / SSE-2 bound the keyword length (32 bytes)
+            if kwmax > 32 and rng.random() < 0.06:
+                kw = kw + rng.choice(["-long", "é", "€x"]) * rng.choice([7, 12, 30])  # 33 bytes and (much) more
             if rng.random() < 0.15:
                 kw = rng.choice([" ", "\t"]) + kw  # leading / trailing whitespace is part of a keyword
             if rng.random() < 0.15:
                 kw = kw + rng.choice([" ", "\n"])
-            while len(kw.encode("utf-8")) > 32:  # the keyword-length limit of SSE-1 / SSE-2 bounds the valid domain
+            while len(kw.encode("utf-8")) > kwmax:  # the keyword-length limit of SSE-1 / SSE-2 bounds the valid domain
                 kw = kw[:len(kw) // 2] + kw[len(kw) // 2 + 1:]
             while kw in db or not kw:
                 kw = (kw + "q")[-31:]
@@ -138,7 +141,7 @@ class C09(P.Property):
             else:
                 j = rng.randrange(len(base))
                 w, cls = base[:j] + ("x" if base[j] != "x" else "y") + base[j + 1:], "near"
-            while len(w.encode("utf-8")) > 32:  # searched keywords stay inside the schemes' keyword-length limit as well
+            while len(w.encode("utf-8")) > (32 if scheme in ("CGKO06.SSE1", "CGKO06.SSE2") else 200):  # searched keywords stay inside the schemes' keyword-length limit as well
                 w = w[1:]
                 cls = "near"
             if not w or w[0] == "\x00":
